@@ -474,7 +474,6 @@ static void RegPrefix(
                 pInfo->SrcLine, sizeof(pInfo->SrcLine), "ld\tcf,%c.%u",
                 Reg8Names[SrcRegIndex], Opcode & 7U);
         break;
-    inv16:
     case 0xfa:
         if (SrcRegIndex > 3) {
             goto inv16;
@@ -517,6 +516,7 @@ static void RegPrefix(
         pInfo->pRemark = "indirect jump, investigate here";
         break;
     default:
+    inv16:
         HexString(NumBuf, sizeof(NumBuf), Opcode, 2);
         HexString(NumBuf2, sizeof(NumBuf2), Address, 0);
         printf("unknown reg prefix opcode 0x%s @ %s\n", NumBuf, NumBuf2);
